@@ -505,7 +505,9 @@ def src_hash(relpaths):
 
 
 def write_evidence(prop, tier, seed, level, coverage, assumptions, wall, violations):
-    os.makedirs(os.path.join(ROOT, "evidence"), exist_ok=True)
+    # runs against another source tree (VERIF_REPO: seeded changes in scratch worktrees) must not overwrite the evidence of /repo
+    evdir = os.path.join(ROOT, "evidence") if not os.environ.get("VERIF_REPO") else os.path.join(ROOT, "scratch", "evidence_other_tree")
+    os.makedirs(evdir, exist_ok=True)
     ev = {
         "property_id": prop,
         "tier": tier,
@@ -516,7 +518,7 @@ def write_evidence(prop, tier, seed, level, coverage, assumptions, wall, violati
         "wall_s": round(wall, 2),
         "violations": int(violations),
     }
-    path = os.path.join(ROOT, "evidence", f"{prop}.json")
+    path = os.path.join(evdir, f"{prop}.json")
     tmp = path + ".tmp"
     with open(tmp, "w") as f:
         json.dump(ev, f, indent=1, default=str)
